@@ -22,6 +22,6 @@ class Search(FilterFunction):
 
         try:
             # re.search caches compiled patterns internally
-            return bool(re.search(map_re(pattern), string, re.VERSION1))
+            return bool(re.search(map_re(pattern), string))
         except (TypeError, re.error):
             return False
